@@ -240,6 +240,16 @@ def check(prog, rep, tier):
             rep.bad("C06.mean-queries", f"{ctx}.__mean_min_query", "unsorted", "the per-row estimates are not sorted before the median is taken", f.where())
             break
         even = [c for c in p.conds if strip_epochs(c.atom) == ("cmp", "==", ("bin", "%", d, C(2)), C(0))]
+        if not even:
+            # other spellings of the parity test: depth % 2 (truthy = odd), depth % 2 != 0, depth % 2 == 1
+            class _Even:
+                def __init__(self, truth):
+                    self.truth = truth
+            for c in p.conds:
+                a_ = strip_epochs(c.atom)
+                m2 = ("bin", "%", d, C(2))
+                if a_ == m2 or a_ in (("cmp", "!=", m2, C(0)), ("cmp", "==", m2, C(1))):
+                    even = [_Even(not c.truth)]
         half = ("bin", "//", d, C(2))
         M = ("p", "<estimates>")
         m = lambda i: ("sub", M, i, 0)  # noqa: E731
@@ -260,6 +270,37 @@ def check(prog, rep, tier):
         rep.ok("C06.mean-queries", "mean-min = median(sorted(bin - (N - bin)//(width-1)))")
     elif okm:
         rep.bad("C06.mean-queries", f"{ctx}.__mean_min_query", f"cases {sorted(seen)}", "even and odd depth are not both handled", f.where())
+    # ---------------------------------------------------------------- which estimator answers: the query-type setter
+    K_ = prog.cls("CountMinSketch")
+    qs = K_.setters.get("query_type")
+    if qs is None:
+        raise AnalysisError("anchor vanished: CountMinSketch.query_type setter")
+    SLOT = "_CountMinSketch__query_method"
+    WANT = {"mean": "_CountMinSketch__mean_query", "mean-min": "_CountMinSketch__mean_min_query", "min": "_CountMinSketch__min_query"}
+    okq, nq = True, 0
+    for p in paths(prog, "CountMinSketch", qs):
+        if p.exit[0] != "return":
+            continue
+        nq += 1
+        chosen = [strip_epochs(c.atom)[3][1] for c in p.conds if c.truth and strip_epochs(c.atom)[0] == "cmp" and strip_epochs(c.atom)[1] == "=="
+                  and strip_epochs(c.atom)[3][0] == "c" and strip_epochs(c.atom)[3][1] in ("mean", "mean-min")]
+        name = chosen[0] if chosen else "min"
+        sets = [strip_epochs(e.value) for e in p.events if e.kind == "setfield" and e.base == SELF and e.name == SLOT]
+        got = sets[-1][2] if sets and sets[-1][0] == "bm" else None
+        if got != WANT[name]:
+            rep.bad("C06.mean-queries", "CountMinSketch.query_type", f"'{name}' selects {got or 'nothing'}",
+                    f"on the path that amounts to query type '{name}' the setter leaves the estimator slot {'as it was' if not sets else 'at ' + str(got)}, expected {WANT[name].replace('_CountMinSketch', '')}: "
+                    "the sketch goes on answering with the previous estimator (mean-min estimates lie below the true count)", qs.where())
+            okq = False
+            break
+        # a remembered name must name the estimator that was selected
+        for e in p.events:
+            if e.kind == "setfield" and e.base == SELF and e.name != SLOT and strip_epochs(e.value)[0] == "c" and strip_epochs(e.value)[1] in WANT and strip_epochs(e.value)[1] != name:
+                rep.bad("C06.mean-queries", "CountMinSketch.query_type", f"remembers '{strip_epochs(e.value)[1]}' for '{name}'",
+                        f"the setter remembers the name '{strip_epochs(e.value)[1]}' on the path that selects the '{name}' estimator", e.where())
+                okq = False
+    if okq and nq:
+        rep.ok("C06.mean-queries", f"CountMinSketch.query_type: mean / mean-min / anything else -> their estimators ({nq} paths)")
     # ---------------------------------------------------------------- cuckoo buckets
     f, em = emissions(prog, "CuckooFilter")
     cells = [x for x in em if x[0] == "cells"]
